@@ -33,7 +33,7 @@ DimClassKernels ==
   \cup {K(3, Base(3), <<2, 3, 1>>, <<"band", "var", "add">>, <<"var", c, "var">>) : c \in {"add", "tern", "bxor"}}
 
 QuickDimKernels ==
-  OrderKernels \cup ClassKernels(2, Perms(2)) \cup ClassKernels(3, {Id(3), <<3, 1, 2>>}) \cup DimClassKernels
+  OrderKernels \cup ClassKernels(2, Perms(2)) \cup ClassKernels(3, { <<3, 1, 2>> }) \cup DimClassKernels
 ThoroughDimKernels ==
   OrderKernels \cup ClassKernels(2, Perms(2)) \cup ClassKernels(3, Perms(3))
   \cup ClassKernels(4, {Id(4), <<4, 3, 2, 1>>, <<2, 4, 1, 3>>, <<3, 1, 4, 2>>}) \cup DimClassKernels
